@@ -81,7 +81,8 @@ func runC20(rt *rapid.T) {
 	equip := rapid.Bool().Draw(rt, "equip")
 	const t3 = 500 * time.Millisecond
 	cold := active && rapid.Bool().Draw(rt, "coldOpen")
-	w, err := newWorld(worldOpt{active: active, equip: equip, noListen: true, connOpts: []hsms.ConnOption{hsms.WithT3(t3), hsms.WithT6(time.Hour), hsms.WithT7(time.Hour),
+	validate := rapid.IntRange(0, 2).Draw(rt, "sessionValidation") == 0
+	w, err := newWorld(worldOpt{active: active, equip: equip, noListen: true, connOpts: []hsms.ConnOption{hsms.WithSessionIDValidation(validate), hsms.WithT3(t3), hsms.WithT6(time.Hour), hsms.WithT7(time.Hour),
 		hsms.WithT8(time.Hour), hsms.WithT5(80 * time.Millisecond), hsms.WithReconnectBackoff(40*time.Millisecond, 2), hsms.WithWriteTimeout(300 * time.Millisecond), hsms.WithCloseTimeout(2 * time.Second)}})
 	if err != nil {
 		rt.Fatalf("VERIF-INFRA: %v", err)
@@ -325,7 +326,14 @@ func runC20(rt *rapid.T) {
 			}
 		case "inbound":
 			for i, n := 0, rapid.IntRange(1, 4).Draw(rt, "n"); i < n; i++ {
-				peerSendData(e37.DataFrame(0xffff, 6, 11, false, 0x70000000+uint32(tok*8+i), genBody(rt)))
+				// a well-formed data frame is RECEIVED whatever its session id: with session-id validation on,
+				// a foreign id is answered with S9F1 (a data frame the peer receives) instead of being
+				// handed to the application, but it was received all the same
+				sess := uint16(0xffff)
+				if rapid.IntRange(0, 2).Draw(rt, "foreignSession") == 0 {
+					sess = uint16(rapid.IntRange(0, 0x7fff).Draw(rt, "sess"))
+				}
+				peerSendData(e37.DataFrame(sess, 6, 11, false, 0x70000000+uint32(tok*8+i), genBody(rt)))
 			}
 		case "refused":
 			_ = p.Send(e37.Control(e37.DeselectReq, 0xffff, 0, 0, 0x0d00+uint32(ph)))
